@@ -210,10 +210,14 @@ def run_case(case):
         # last change is taken as max(H_{L-1}, H_{L-2}/2, H_{L-3}/4) so that an accidental
         # cancellation of two error terms of opposite sign at one rung cannot shrink the bound;
         # an error component that does NOT vanish with dt leaves every H unchanged and E large.
+        # Round-off: the finest rungs carry the largest accumulated rounding (a constant sub-ulp
+        # fraction of the per-step longitude increment is dropped at every step: a plateau that
+        # does not shrink with dt); see mc/ladder.py for why f_{L-1} + 2 f_L is the allowance.
         tail = max(H[L - 1 - j][c] / 2 ** j for j in range(min(3, L)))
+        fl_tail = floors(case, ladder[-2])[c] + 2 * floors(case, ladder[-1])[c]
         for k, dtk in enumerate(ladder):
             fl = floors(case, dtk)
-            allowed = sum(H[j][c] for j in range(k, L)) + K_TAIL * tail + fl[c]
+            allowed = sum(H[j][c] for j in range(k, L)) + K_TAIL * tail + max(fl[c], fl_tail)
             ratio = E[dtk][c] / allowed
             nm = 'max_tight_halving_' + names[c]
             stats[nm] = max(stats.get(nm, 0.0), ratio)
